@@ -48,9 +48,15 @@ pub enum Kind {
     Relocate,
     WithCap,
     DropNew,
+    DisjointUnchecked,
+    DefaultIter,
+    SDiffRef,
+    SExtendRef,
+    /// not in ALL_KINDS: only profiles that ask for it get it
+    BigDisjoint,
 }
 
-pub const ALL_KINDS: [Kind; 42] = [
+pub const ALL_KINDS: [Kind; 46] = [
     Kind::Insert,
     Kind::InsertKv,
     Kind::Checked,
@@ -93,6 +99,10 @@ pub const ALL_KINDS: [Kind; 42] = [
     Kind::Relocate,
     Kind::WithCap,
     Kind::DropNew,
+    Kind::DisjointUnchecked,
+    Kind::DefaultIter,
+    Kind::SDiffRef,
+    Kind::SExtendRef,
 ];
 
 /// Per-property generation profile.
@@ -138,7 +148,7 @@ pub fn boost(mut w: Vec<(Kind, u32)>, kinds: &[Kind], weight: u32) -> Vec<(Kind,
 }
 
 /// (shape, N, M) combinations the executor is monomorphised for.
-pub const MENU: [(Shape, usize, usize); 32] = [
+pub const MENU: [(Shape, usize, usize); 38] = [
     (Shape::Small, 0, 0),
     (Shape::Small, 0, 2),
     (Shape::Small, 1, 1),
@@ -171,6 +181,12 @@ pub const MENU: [(Shape, usize, usize); 32] = [
     (Shape::PlainKey, 8, 8),
     (Shape::PlainVal, 3, 5),
     (Shape::PlainVal, 8, 8),
+    (Shape::PlainBoth, 4, 4),
+    (Shape::Small, 4, 6),
+    (Shape::Small, 32, 7),
+    (Shape::Boxed, 16, 2),
+    (Shape::Large, 1, 4),
+    (Shape::ZstVal, 0, 1),
 ];
 
 pub struct G<'a> {
@@ -419,10 +435,40 @@ impl G<'_> {
                 }
             }
             Kind::Fill => Op::Fill { t, set: self.r.chance(1, 3) },
-            Kind::Overflow => Op::Overflow { t, via: VIAS[self.r.below(VIAS.len() as u64) as usize] },
+            Kind::Overflow => Op::Overflow { t, via: VIAS[self.r.below(VIAS.len() as u64) as usize], hint: if self.r.chance(2, 3) { 0 } else { self.r.below(8) as u8 } },
             Kind::Relocate => Op::Relocate { t, set: self.r.chance(1, 3) },
             Kind::WithCap => Op::WithCap { t, c: if self.r.chance(1, 2) { self.cap(t) as u32 } else { self.r.below(20) as u32 } },
-            Kind::DropNew => Op::DropNew { t, set: self.r.chance(1, 3) },
+            Kind::DropNew => Op::DropNew { t, set: self.r.chance(1, 3), dflt: self.r.chance(1, 2) },
+            Kind::DisjointUnchecked => {
+                // pairwise different classes: the documented precondition
+                let j = self.r.below(5) as usize;
+                let mut cs: Vec<u32> = Vec::new();
+                for _ in 0..j {
+                    let mut c = self.r.below(self.u as u64 + 2) as u32;
+                    while cs.contains(&c) {
+                        c = (c + 1) % (self.u + 8);
+                    }
+                    cs.push(c);
+                }
+                Op::DisjointUnchecked { t, cs, f: self.f() }
+            }
+            Kind::DefaultIter => Op::DefaultIter { t, which: self.r.below(8) as u8 },
+            Kind::SDiffRef => {
+                let j = self.r.below(self.n as u64 + self.m as u64 + 2) as u8;
+                let how = match self.r.below(4) {
+                    0 => AlgUse::Take(j),
+                    1 => AlgUse::Fold,
+                    2 => AlgUse::Count,
+                    _ => AlgUse::DebugAt(j),
+                };
+                Op::SDiffRef { a: t, b: self.t(), how }
+            }
+            Kind::BigDisjoint => Op::BigDisjoint { fill: if self.r.chance(1, 2) { 256 } else { self.r.below(257) as u16 }, sel: self.r.below(8) as u8 },
+            Kind::SExtendRef => {
+                let items = self.items(t);
+                let src = self.src(items.len());
+                Op::SExtendRef { t, items, src }
+            }
         }
     }
 
